@@ -450,4 +450,82 @@ Section Theorems.
       rewrite (case_conv_correct _ _ _ a _ Hp); cbn [map opt_out obind join];
       simpl in Hop; inversion Hop; subst; reflexivity.
   Qed.
+
+  (* ------------------------------------------------------------------ ${p/pat/w} ${p/#pat/w} ${p/%pat/w} on a set scalar subject *)
+
+  Lemma replace_param_eval : forall e name i orig w s anc p a,
+    is_params_name name = false ->
+    is_list_idx i = false ->
+    bash_value (env_get e name) i = PVal (Some s) ->
+    split_anchor false orig (pattern_of orig) = (anc, p) ->
+    (anc = ANone -> p <> []) ->
+    pat_atoms p = PatOk a ->
+    pexp_eval e (mkP name i (PRepl false orig w)) =
+    OOk (match anc with
+         | ABegin => replace_anchored a (literal_of w) s false
+         | AEnd => replace_anchored a (literal_of w) s true
+         | ANone => replace_first a (literal_of w) s
+         end, None).
+  Proof.
+    intros e name i orig w s anc p a Hn Hl Hv Hsa Hne Hp.
+    rewrite (param_exp_scalar upper lower quote e name i _ (Some s) Hn Hl Hv). cbv zeta.
+    cbn [set_of is_unset negb cur]. unfold replace_elems. rewrite Hsa.
+    destruct anc; destruct p as [|c p']; try (exfalso; apply Hne; reflexivity);
+      rewrite Hp; cbn [map opt_out obind join]; reflexivity.
+  Qed.
+
+  Lemma replace_end_param : forall e name i orig w s p a,
+    is_params_name name = false -> is_list_idx i = false ->
+    bash_value (env_get e name) i = PVal (Some s) ->
+    split_anchor false orig (pattern_of orig) = (AEnd, p) ->
+    pat_atoms p = PatOk a ->
+    exists r, pexp_eval e (mkP name i (PRepl false orig w)) = OOk (r, None) /\
+      ((exists pre suf, s = pre ++ suf /\ pmatch (toks a) suf /\ r = pre ++ literal_of w /\
+          forall pre' suf', s = pre' ++ suf' -> pmatch (toks a) suf' -> (length suf' <= length suf)%nat)
+       \/ (r = s /\ forall pre suf, s = pre ++ suf -> ~ pmatch (toks a) suf)).
+  Proof.
+    intros e name i orig w s p a Hn Hl Hv Hsa Hp. eexists. split.
+    - apply (replace_param_eval e name i orig w s AEnd p a Hn Hl Hv Hsa); [discriminate|exact Hp].
+    - apply replace_anchored_end_correct.
+  Qed.
+
+  Lemma replace_begin_param : forall e name i orig w s p a,
+    is_params_name name = false -> is_list_idx i = false ->
+    bash_value (env_get e name) i = PVal (Some s) ->
+    split_anchor false orig (pattern_of orig) = (ABegin, p) ->
+    pat_atoms p = PatOk a ->
+    exists r, pexp_eval e (mkP name i (PRepl false orig w)) = OOk (r, None) /\
+      ((exists pre suf, s = pre ++ suf /\ pmatch (toks a) pre /\ r = literal_of w ++ suf)
+       \/ (r = s /\ forall pre suf, s = pre ++ suf -> ~ pmatch (toks a) pre)).
+  Proof.
+    intros e name i orig w s p a Hn Hl Hv Hsa Hp. eexists. split.
+    - apply (replace_param_eval e name i orig w s ABegin p a Hn Hl Hv Hsa); [discriminate|exact Hp].
+    - apply replace_anchored_begin_sound.
+  Qed.
+
+  Lemma replace_first_param : forall e name i orig w s p a,
+    is_params_name name = false -> is_list_idx i = false ->
+    bash_value (env_get e name) i = PVal (Some s) ->
+    split_anchor false orig (pattern_of orig) = (ANone, p) ->
+    p <> [] ->
+    pat_atoms p = PatOk a ->
+    exists r, pexp_eval e (mkP name i (PRepl false orig w)) = OOk (r, None) /\
+      ((exists pre mid post, s = pre ++ mid ++ post /\ pmatch (toks a) mid /\ r = pre ++ literal_of w ++ post /\
+          forall pre' mid' post', s = pre' ++ mid' ++ post' -> pmatch (toks a) mid' -> (length pre <= length pre')%nat)
+       \/ (r = s /\ forall pre mid post, s = pre ++ mid ++ post -> ~ pmatch (toks a) mid)).
+  Proof.
+    intros e name i orig w s p a Hn Hl Hv Hsa Hne Hp. eexists. split.
+    - apply (replace_param_eval e name i orig w s ANone p a Hn Hl Hv Hsa); [intros _; exact Hne|exact Hp].
+    - apply replace_first_sound.
+  Qed.
+
+  (* an unset parameter expands to nothing whatever the pattern (repaired) *)
+  Lemma replace_unset_param : forall e name i all orig w,
+    is_params_name name = false -> is_list_idx i = false ->
+    bash_value (env_get e name) i = PVal None ->
+    pexp_eval e (mkP name i (PRepl all orig w)) = OOk ([], None).
+  Proof.
+    intros e name i all orig w Hn Hl Hv.
+    rewrite (param_exp_scalar upper lower quote e name i _ None Hn Hl Hv). reflexivity.
+  Qed.
 End Theorems.
